@@ -84,6 +84,27 @@ def programs(seed, count):
                 for _ in range(rnd.randrange(1, 4)):
                     ops.append(rnd.choice(readers) if rnd.random() < 0.6 else rnd.choice(["Hr:.*/r:.*", "H%s/r:.*" % par, "Hr:.*"]))
                 progs.append(",".join(ops))
+        elif rnd.random() < 0.2:
+            # same-key churn: every thread starts by subscribing to / unsubscribing from ONE key, so that the per-subject
+            # bookkeeping is touched by several threads that have not synchronised through the router before
+            k = rnd.choice(KEYS)
+            pre = ["S%s#%d" % (k, i) for i in (1, 2, 3)]
+            nid, spare = 4, [1, 2, 3]
+            rnd.shuffle(spare)
+            progs = []
+            for w in range(rnd.randrange(2, 4)):
+                ops, mine = [], []
+                for j in range(rnd.randrange(1, 4)):
+                    r = rnd.random()
+                    if r < 0.45 and (spare or mine):
+                        ops.append("U%d" % (mine.pop() if mine and (not spare or rnd.random() < 0.3) else spare.pop()))
+                    elif r < 0.8:
+                        ops.append("S%s#%d" % (k, nid))
+                        mine.append(nid)
+                        nid += 1
+                    else:
+                        ops.append("N" + k)
+                progs.append(",".join(ops))
         sched = "seed=%d" % rnd.randrange(1, 2 ** 31)
         if rnd.random() < 0.35:
             sched += " pct=%d len=%d" % (rnd.randrange(1, 4), rnd.randrange(20, 120))
